@@ -374,9 +374,24 @@ pub fn run_behaviour(tr: &Tracer, run: i64, ops: &[Value]) {
     let first = &ops[0];
     assert_eq!(gets(first, "op"), "New");
     let cap = geti(first, "i");
-    tr.emit(&json!({"e": "Begin", "run": run, "layer": "vec", "cap": cap}));
+    let init = getvs(first, "vs");
+    let presubs = geti(first, "k");
+    tr.emit(&json!({"e": "Begin", "run": run, "layer": "vec", "cap": cap, "init": init, "presubs": presubs}));
     set_fresh(1);
     let mut cx = Ctx { src: Source::new(cap, run % 2 == 0), ..Default::default() };
+    if !init.is_empty() {
+        // initial contents exist before anybody subscribes (alternating between append and From<Vector>)
+        let v: Vector<Elem> = init.iter().map(|v| Elem::new(*v)).collect();
+        if run % 3 == 0 && cap == 16 {
+            cx.src.vec = Some(Box::new(ObservableVector::from(v)));
+        } else {
+            cx.src.vec.as_mut().unwrap().append(v);
+        }
+    }
+    for s in 1..=presubs {
+        let sub = cx.src.vec.as_ref().unwrap().subscribe();
+        cx.subs.insert(s, SubState::Lazy(sub, s == 2));
+    }
     for o in &ops[1..] {
         let mut ev = json!({"e": "Op", "run": run, "op": o["op"], "t": o["t"], "s": geti(o, "s"), "i": geti(o, "i"),
                             "v": geti(o, "v"), "vs": o["vs"], "k": geti(o, "k")});
